@@ -131,7 +131,7 @@ func oracle(c *Case, o *Obs) []Finding {
 	if c.Mode == "unary" {
 		return oracleUnary(c, o)
 	}
-	m := refModel(c.Side, c.Body())
+	m := refModel(c.Side, c.Visible())
 	add := func(clause, what string) { out = append(out, Finding{clause, m.Stop, what}) }
 	if o.Panic != "" {
 		add("panic", "library code panicked: "+o.Panic)
@@ -229,6 +229,17 @@ func oracleUnary(c *Case, o *Obs) []Finding {
 	}
 	if w := misdecoded(c, o); w != "" {
 		add("genuine-body-misdecoded", w)
+	}
+	// an unframed body that ends cleanly and whose declared length, if any, is
+	// its length is the encoding of one message: a message that is delivered
+	// must be that one, whatever the destination object held before
+	if len(o.Delivered) > 0 && !c.Abrupt && declaredConsistent(c) {
+		var ref, got wrapperspb.StringValue
+		if err := proto.Unmarshal(c.Body(), &ref); err != nil {
+			add("fabricated-message", fmt.Sprintf("message %q delivered for an undecodable body", o.DeliveredS[0]))
+		} else if err := proto.Unmarshal(o.Delivered[0], &got); err != nil || !proto.Equal(&ref, &got) {
+			add("altered-message", fmt.Sprintf("message delivered as %q, encoded as %q (%s)", o.DeliveredS[0], abbr(ref.Value), firstDiff(got.Value, ref.Value)))
+		}
 	}
 	return out
 }
@@ -359,10 +370,22 @@ func fragmentedInside(c *Case) bool {
 // nontrivial: the decoder has to take a decision the property is about (a
 // size prefix to validate, an EOF to classify, a cut to detect).
 func nontrivial(c *Case) (bool, string) {
+	if c.Dest != "" {
+		// a case of the destination dimension counts when a message is decoded
+		// into a destination that is not zero
+		stop := stUnary
+		if c.Mode != "unary" {
+			stop = refModel(c.Side, c.Body()).Stop
+		}
+		return destNontrivial(c), "dest:" + stop
+	}
 	if c.Mode == "unary" {
 		return c.Abrupt || len(c.Body()) < c.FullLen, stUnary
 	}
-	m := refModel(c.Side, c.Body())
+	m := refModel(c.Side, c.Visible())
+	if c.Ctx != nil {
+		return ctxNontrivial(c), "ctx:" + m.Stop
+	}
 	switch m.Stop {
 	case stTrailerOK, stTrailerErr:
 		return fragmentedInside(c), m.Stop
